@@ -286,7 +286,10 @@ func runSharedFree(w *rec.Writer, c *caseSpec, id rec.V) {
 					if n != len(wantItems) || classify(err) != wantErr {
 						fail(fmt.Sprintf("clone %d: ended with error class %d after %d items, want class %d after %d", g, classify(err)-1, n, wantErr-1, len(wantItems)))
 					}
-					if _, err2 := it.Next(bg); classify(err2) != wantErr {
+					// a bypassed read hands out the inner reader's own iterator, whose scripted
+					// error is one-shot; only the shared iterator promises a sticky error
+					_, isRaw := it.(*scripted[*openfgav1.Tuple])
+					if _, err2 := it.Next(bg); !isRaw && classify(err2) != wantErr {
 						fail(fmt.Sprintf("clone %d: the terminal error is not sticky", g))
 					}
 					return
